@@ -36,6 +36,19 @@ pub fn issue(
     decoys: bool,
 ) -> (Mdoc, SigningKey) {
     let device_key = SigningKey::random(rng);
+    let ck = cose_key_of(&device_key);
+    (issue_with_key(pki, doc_type, namespaces, alg, decoys, ck), device_key)
+}
+
+/// issue with an arbitrary device COSE key (e.g. one isomdl cannot sign with)
+pub fn issue_with_key(
+    pki: &Pki,
+    doc_type: &str,
+    namespaces: BTreeMap<String, BTreeMap<String, Value>>,
+    alg: DigestAlgorithm,
+    decoys: bool,
+    device_cose_key: CoseKey,
+) -> Mdoc {
     let now = time::OffsetDateTime::now_utc();
     let validity_info = ValidityInfo {
         signed: now,
@@ -49,11 +62,11 @@ pub fn issue(
         .namespaces(namespaces)
         .validity_info(validity_info)
         .digest_algorithm(alg)
-        .device_key_info(DeviceKeyInfo { device_key: cose_key_of(&device_key), key_authorizations: None, key_info: None })
+        .device_key_info(DeviceKeyInfo { device_key: device_cose_key, key_authorizations: None, key_info: None })
         .enable_decoy_digests(decoys)
         .issue::<SigningKey, p256::ecdsa::Signature>(x5chain, pki.ds_key.clone())
         .expect("issue mdoc");
-    (mdoc, device_key)
+    mdoc
 }
 
 pub fn registry(anchors: Vec<(x509_cert::Certificate, TrustPurpose)>) -> TrustAnchorRegistry {
